@@ -1,29 +1,29 @@
 SPECIFICATION GenSpec
 CONSTANTS
-  Sessions = {"M1"}
-  Legacy = {}
-  InitOn = {"M1"}
+  Sessions = {"L1", "M1"}
+  Legacy = {"L1"}
+  InitOn = {"L1"}
   InitSub = {}
-  Kinds = {"tools"}
+  Kinds = {"resources", "templates"}
   NotifOf <- NotifStd
   Uris = {}
   Want <- WantAll
   CapOff = {}
   CapMode <- ModeInferred
-  InitSize <- Size3
-  MaxSize = 3
-  Dirs = {"mod"}
+  InitSize <- SizeR1T0
+  MaxSize = 1
+  Dirs = {"add", "rm"}
   SendGate = "configured"
-  TTLPos = TRUE
+  TTLPos = FALSE
   D = 2
-  MaxTime = 4
-  MaxChanges = 1
+  MaxTime = 6
+  MaxChanges = 3
   MaxUpdates = 0
-  MaxCalls = 2
-  NPages = 2
+  MaxCalls = 0
+  NPages = 1
   ListenOwns = TRUE
   ResubRace = TRUE
-  GenCheck = FALSE
+  GenCheck = TRUE
   ColdBump = TRUE
   ModernUnsub = FALSE
   ForeignUnsub = FALSE
@@ -31,13 +31,13 @@ CONSTANTS
   MaxListens = 0
   FailUndo = TRUE
   Stepwise = TRUE
-  Gates = TRUE
-  GateNames = {"put"}
+  Gates = FALSE
+  GateNames = {"inv", "usr", "put"}
   ClientFirst = FALSE
   MinSteps = 1
-  MaxSteps = 9
+  MaxSteps = 6
   Bias = FALSE
   Script <- ScriptNone
   GenOps = {"change", "tchange", "updated", "connect", "close", "subscribe", "unsubscribe", "list", "tick", "hold", "release"}
-INVARIANTS LeadFresh
+INVARIANTS Export NeverLost OnlyEntitled NoneWhenDisabled UpdatedExactlySubscribers Fresh ForgottenOnClose
 CHECK_DEADLOCK FALSE
